@@ -150,6 +150,16 @@ def mutations(design, rng, limit_per_class):
                 sp0, bp0 = refsem.iface(design, inst["of"])
                 if fname not in sp0 and fname not in bp0:
                     add("extra-connection-flattened-name", site, mutated(["sig", "zzfl"], extra_sigs=[["zzfl", lw]], add_port=fname), "extra-connection")
+                # the bundle port left unconnected, and EVERY flattened name connected instead (ports the target does not have)
+                fnames = [(refsem.flatname(port, *p_), w_) for p_, w_ in leaves]
+                if all(fn not in sp0 and fn not in bp0 for fn, _ in fnames):
+                    dfl = mutated(None, delete=True)
+                    mmf = dfl["modules"][mi]
+                    n_el = inst.get("n", 1) if inst.get("kind") == "array" else 1
+                    for kf, (fn, w_) in enumerate(fnames):
+                        mmf["sigs"].append([f"zzfn{kf}", w_])
+                        mmf["insts"][ii]["conns"][fn] = ["sig", f"zzfn{kf}"]
+                    add("flattened-names-instead-of-bundle", site, dfl, "extra-connection")
             if e[0] == "anon":
                 # width mismatch inside an anonymous-bundle member, missing member, extra member
                 k = sorted(e[1])[0]
@@ -189,6 +199,10 @@ def mutations(design, rng, limit_per_class):
             referenced = any(str(["pref", inst["name"], port]) in str(i2["conns"]) for i2 in m["insts"])
             if not referenced:
                 add("dropped-connection", site, mutated(None, delete=True), "missing-connection")
+                # ... and the designer LOOKS at the unconnected port (hasattr / print / a reference taken and not used): looking connects nothing
+                dp = mutated(None, delete=True)
+                dp["probe"] = [[m["name"], inst["name"], port]]
+                add("dropped-connection-probed", site, dp, "missing-connection")
         add("extra-connection", site, mutated(["sig", "zzx1"], extra_sigs=[["zzx1", 1]], add_port="zznoport"), "extra-connection")
         if inst.get("kind", "single") == "single" and pkind == "scalar":
             others = [i2 for i2 in m["insts"] if i2 is not inst and i2.get("kind", "single") == "single"]
@@ -300,6 +314,16 @@ def build_mutant(design):
         s2 = topm.add(h.Signal(width=2), name="zzc2")
         topm.add(x1()(a=s1, b=s1), name="zzx1")
         topm.add(x2()(a=s1, b=s2, c=s1), name="zzx2")
+    for mname, iname, port in design.get("probe", []):
+        iobj = built.objs.get((mname, iname))
+        if iobj is not None:
+            hasattr(iobj, port)
+            ref = getattr(iobj, port, None)
+            repr(ref)
+            try:
+                ref[0]  # (a slice of the reference, thrown away)
+            except Exception:
+                pass
     disp = design.get("displace")
     if disp and disp[0] in built.modules:
         built.modules[disp[0]].add(h.Signal(width=disp[2]), name=disp[1])
